@@ -146,4 +146,23 @@ def probe_c12(oblig, tier, seed):
     return {'found': False, 'tried': tried}
 
 
-PROBES = {'C12': probe_c12, 'C01': probe_c01, 'C13': probe_c01, 'C05': probe_c05, 'C03': probe_c03, 'C06': probe_c06}
+def probe_c19(oblig, tier, seed):
+    """arithmetic lines over boundary operands: never a crash (value or diagnostic)."""
+    big = ['9223372036854775807', '9223372036854775808', '99999999999999999999', '2147483648', '0', '1', '2', '3', '63', '64', '70']
+    lines = []
+    for a in big:
+        for op in ['+', '-', '*', '/', '^']:
+            for b in big[:6] + ['(0 - 1)', '(0 - 64)']:
+                lines.append('%s %s %s' % (a, op, b))
+    random.Random(seed).shuffle(lines)
+    tried = 0
+    for line in lines[:250 if tier == 'quick' else 2000]:
+        w = {'line': line, 'timeout': 5}
+        tried += 1
+        bad, detail = W.violates(w, W.observe(w))
+        if bad:
+            return _found(w, detail)
+    return {'found': False, 'tried': tried}
+
+
+PROBES = {'C19': probe_c19, 'C12': probe_c12, 'C01': probe_c01, 'C13': probe_c01, 'C05': probe_c05, 'C03': probe_c03, 'C06': probe_c06}
